@@ -842,6 +842,9 @@ func surjections(n int) [][]int {
 // thorough: also with the pairs tail.
 func (sc *scen) sequences() [][]int {
 	base := sc.fixedOrders
+	if base != nil && !vk.Thorough() {
+		base = base[:1] // quick: only the first of the fixed orders of the 9-blob universes
+	}
 	if base == nil {
 		base = perms(len(sc.blobs))
 		if vk.Thorough() && len(sc.blobs) <= 4 {
@@ -885,7 +888,7 @@ func scenarios() []*scen {
 	f7 := mkFile("f7", "f7.bin", x1, x2, x3, x4)
 	out = append(out, &scen{name: "F2+F7-same-bytes-different-chunks", blobs: []hs.Blob{cA, cB, cC, f2.blob, x1, x2, x3, x4, f7.blob}, files: []fileSpec{f2, f7},
 		maxZip: chunkSize + 40<<10, fixedOrders: [][]int{{0, 1, 2, 3, 4, 5, 6, 7, 8}, {4, 5, 6, 7, 8, 0, 1, 2, 3}},
-		note: "F2 (3 x 256 KiB) and the same 768 KiB cut as 128+256+256+128 KiB under another name, zip limit 296 KiB; orders: all of F2 then all of F7, and the reverse"})
+		note: "F2 (3 x 256 KiB) and the same 768 KiB cut as 128+256+256+128 KiB under another name, zip limit 296 KiB; orders: all of F2 then all of F7; thorough also the reverse"})
 	return out
 }
 
